@@ -942,7 +942,7 @@ struct Gen {
 
 pub fn generate(opts: &Opts, profile: &str, out: &mut Out) {
     let mut rng = Rng::new(opts.seed ^ 0x5157);
-    let cases: u64 = opts.budget.unwrap_or(if opts.thorough { 40000 } else { 1500 });
+    let cases: u64 = opts.budget.unwrap_or(if opts.thorough { 300000 } else { 1500 });
     let (shard, nshards) = opts.shard;
     for id in 0..cases {
         let mut crng = rng.fork();
